@@ -90,6 +90,13 @@ pub fn verify_identity(e: &Env, account: &Address) {
     let topics_and_issuers = cti_client.get_claim_topics_and_issuers();
 
     for (claim_topic, issuers) in topics_and_issuers.iter() {
+        // A required topic that no trusted issuer covers cannot be satisfied;
+        // without this check the loop below would be skipped and the topic
+        // would pass vacuously.
+        if issuers.is_empty() {
+            panic_with_error!(e, RWAError::IdentityVerificationFailed)
+        }
+
         let issuers_with_claim_ids = issuers.iter().enumerate().map(|(i, issuer)| {
             (
                 issuer.clone(),
